@@ -82,8 +82,12 @@ def record_failure(ctx, w, f, test, invs, module):
     ev = f.event or {}
     brief = {k: ev.get(k) for k in ("ev", "c", "slot", "after_fail", "in", "msg") if k in ev}
     with open(path, "w") as fh:
-        json.dump({"property": ctx.pid, "invariant": f.invariant, "event_index": f.event_index, "event": brief, "test": test,
-                   "invariants": invs, "module": module, "trace": [json.loads(x) for x in f.lines], "tlc": f.tlc_tail}, fh)
+        rec = {"property": ctx.pid, "invariant": f.invariant, "event_index": f.event_index, "event": brief, "test": test,
+               "invariants": invs, "module": module, "trace": [json.loads(x) for x in f.lines], "tlc": f.tlc_tail}
+        if getattr(f, "lines2", None):
+            rec["trace_b"] = [json.loads(x) for x in f.lines2]
+            rec["test_b"] = getattr(f, "test_b", None)
+        json.dump(rec, fh)
     # known finding?  re-validate this single test with the listed deviations enabled
     known = [k for k in load_known()["findings"] if k.get("status") == "known" and k["property"] == ctx.pid]
     for k in known:
@@ -100,6 +104,43 @@ def record_failure(ctx, w, f, test, invs, module):
     ctx.failures.append((f.invariant, brief, path))
     print("VIOLATION property=%s replay=%s" % (ctx.pid, path), flush=True)
     log("  invariant %s rejected test %s at event %d: %s" % (f.invariant, f.test_id, f.event_index, json.dumps(brief)[:300]))
+
+
+def pair_pipeline(ctx, w, tests, variants, label="pair"):
+    """C12: run every test under the base configuration and under each variant
+    configuration; TLC compares the two recordings event by event (SodPair)."""
+    binp = vlib.build()
+    base = vlib.run_harness(binp, tests, w.sub("run-%s-base" % label))
+    nb = sum(1 for _, tp in base for _ in open(tp))
+    ctx.events += nb
+    ctx.tests += len(tests)
+    for vi, vfn in enumerate(variants):
+        vt = []
+        for t in tests:
+            t2 = json.loads(json.dumps(t))
+            t2["cfg"] = vfn(dict(t["cfg"]))
+            vt.append(t2)
+        t1 = time.time()
+        other = vlib.run_harness(binp, vt, w.sub("run-%s-%d" % (label, vi)))
+        t2_ = time.time()
+        ctx.events += sum(1 for _, tp in other for _ in open(tp))
+        ctx.tests += len(vt)
+        failures, states, runs = vlib.validate_many([tp for _, tp in base], ["Conf_C12"], w.sub("val-%s-%d" % (label, vi)), module="SodPair",
+                                                    seconds=[tp for _, tp in other])
+        ctx.trace_states += states
+        log("  [%s v%d %s] %d tests: run %.1fs, TLC pair validation %.1fs (%d runs, %d states)" %
+            (label, vi, json.dumps(vt[0]["cfg"]), len(vt), t2_ - t1, time.time() - t2_, runs, states))
+        byid = {t["id"]: t for t in tests}
+        byid2 = {t["id"]: t for t in vt}
+        for f in failures:
+            f.test_b = byid2.get(f.test_id)
+            record_failure(ctx, w, f, byid.get(f.test_id), ["Conf_C12"], "SodPair")
+    for t in tests:
+        sig = hashlib.sha256(json.dumps(t["ops"], sort_keys=True).encode()).hexdigest()
+        if any(o["op"] in ("put", "many") for o in t["ops"]):
+            ctx.nontrivial.add(sig)
+    if len(ctx.samples) < 3 and tests:
+        ctx.samples.append({"test": tests[0]["id"], "base_cfg": tests[0]["cfg"], "ops": tests[0]["ops"][:8]})
 
 
 def mc_tests(ctx, w, label, convert_kw=None, limit=None, **kw):
@@ -232,7 +273,65 @@ def check_C20(ctx, w):
     seq_pipeline(ctx, w, tests, ["Conf_C20"])
 
 
-CHECKS = {"C01": check_C01, "C02": check_C02, "C03": check_C03, "C04": check_C04, "C06": check_C06, "C07": check_C07,
+def check_C12(ctx, w):
+    ctx.rule = ("every test (all transitions of the bounded model + random histories with query chains, invalid patterns, rejected writes, reopen) is executed under the base configuration "
+                "(sync, no cache, no compression, indexed) and under each other configuration; pairs of recordings compared event by event by TLC; configurations: cache, async, cache+async, gzip, "
+                "lower-case names, custom extension, plain struct (searched fields not indexed), and combinations")
+    tests = mc_tests(ctx, w, "mc", slots=2, kvals=2, avals=2, maxbatch=2, maxops=ctx.q(3, 4), bfilter="PairBatch", get=True, limit=ctx.q(1200, 20000), cfgs="SyncCfgs")
+    tests += rnd_tests(ctx, ctx.q(100, 1500), nops=ctx.q(25, 40), p_query=0.12)
+    basecfg = dict(cache=False, thr=100000, tmo_ms=3600000, gz=False, lc=False, ext=".json", plain=False)
+    basecfg["async"] = False
+    for t in tests:
+        t["cfg"] = dict(basecfg)
+        for o in t["ops"]:
+            if o["op"] == "reopen":
+                o["close"] = True       # abandoning a handle is only promised harmless in sync mode (C04)
+
+    def V(**kw):
+        def f(c):
+            c.update(kw)
+            return c
+        return f
+    variants = [V(cache=True), V(**{"async": True}), V(gz=True, lc=True), V(plain=True), V(ext=".dat", cache=True, **{"async": True})]
+    if not ctx.quick:
+        variants += [V(plain=True, cache=True, gz=True), V(plain=True, lc=True, **{"async": True}), V(gz=True, ext=".x"), V(lc=True, cache=True)]
+    pair_pipeline(ctx, w, tests, variants)
+
+
+def check_C14(ctx, w):
+    ctx.level = "exploration"
+    ctx.rule = ("each of the 12 payload shapes (nil / empty / non-empty slices and maps, pointer chains, slices of pointers inside maps, interfaces holding maps, slices, pointers; "
+                "nested struct behind a pointer) is written (single and batch paths), then the caller's object, objects returned by Get / All, and one of two reads of the same object are "
+                "overwritten in place; TLC checks that every later sweep still equals the accepted values; distinct = distinct (payload shape, mutation kind, cache/async) combinations")
+    tests = gen_tests(ctx, ctx.q(400, 5000), gen.isolation_test, "iso", nobj=ctx.q(4, 6))
+    seq_pipeline(ctx, w, tests, ["Conf_C14"])
+    combos = set()
+    for t in tests:
+        for o in t["ops"]:
+            if o["op"] == "mutate":
+                combos.add((o["what"], t["cfg"]["cache"], t["cfg"]["async"]))
+    ctx.extra_cov["mutation_kind_x_config"] = len(combos)
+
+
+def check_C18(ctx, w):
+    ctx.rule = ("after every transition of the bounded model and in random histories (sync configurations: the directory is judged when nothing can be pending) an independent walk of the root "
+                "directory (os.ReadDir, gzip, encoding/json only) is compared by TLC with the abstract map: directory name, schema.json, exactly one <uuid><ext>[.gz] file per object, decoded content")
+    tests = mc_tests(ctx, w, "mc", slots=2, kvals=2, avals=2, maxbatch=2, maxops=ctx.q(3, 4), bfilter="PairBatch", get=False, limit=ctx.q(3000, 40000), cfgs="SyncCfgs")
+    tests += rnd_tests(ctx, ctx.q(150, 2500), nops=ctx.q(25, 40), cfgs=[(False, False), (True, False)])
+    seq_pipeline(ctx, w, tests, ["Conf_C18"])
+
+
+def check_C19(ctx, w):
+    ctx.level = "fault_enumeration"
+    ctx.rule = ("argument part: the complete battery of (field, operator, value kind) triples - 13 fields x 11 operators (4 unknown) x 15 value kinds incl. nil, struct, bytes, bool, pointer, "
+                "5 invalid patterns per string field, 9 unknown / partial field paths - on empty and non-empty, indexed and plain collections, each also as an And refinement and through One / Delete; "
+                "a case is non-trivial when the triple is malformed")
+    tests = gen_tests(ctx, ctx.q(12, 48), gen.args_test, "arg")
+    seq_pipeline(ctx, w, tests, ["Conf_C19"])
+    ctx.extra_cov["argument_triples_per_battery"] = 1600
+
+
+CHECKS = {"C14": check_C14, "C18": check_C18, "C19": check_C19, "C12": check_C12, "C01": check_C01, "C02": check_C02, "C03": check_C03, "C04": check_C04, "C06": check_C06, "C07": check_C07,
           "C13": check_C13, "C15": check_C15, "C16": check_C16, "C20": check_C20}
 
 TECH = "TLA+ design model (SodImpl) explored exhaustively by TLC, one generated test per model transition replayed on the real code, every recorded trace validated by TLC against the trace specification (SodTrace) with the property's invariant"
